@@ -429,6 +429,7 @@ def list_method(ex, l, name, args, kw, st):
     items = st.lists[l.lid]
     if name == 'append':
         st.lists[l.lid] = items + (('el', args[0]),)
+        st.ghost['__ver__%d' % l.lid] = st.ghost.get('__ver__%d' % l.lid, 0) + 1
         h = getattr(ex, 'on_list_append', None)
         if h:
             h(l, args[0], st)
@@ -436,6 +437,7 @@ def list_method(ex, l, name, args, kw, st):
     if name == 'pop' and not args:
         if items and items[-1][0] == 'el':
             st.lists[l.lid] = items[:-1]
+            st.ghost['__ver__%d' % l.lid] = st.ghost.get('__ver__%d' % l.lid, 0) + 1
             return [(st, items[-1][1])]
         if not items:
             raise PyExc('IndexError', 'pop from empty list')
